@@ -15,7 +15,9 @@ import (
 //verif:mode int
 //verif:replace $M/core/state.PubToAddress zzPubToAddress
 //verif:replace $M/rlp.EncodeToBytes zzC10rEncode
+//verif:replace $M/rlp.Encode zzC10rEncodeTo
 //verif:replace $M/rlp.DecodeBytes zzC10rDecode
+//verif:replace (*$M/rlp.Stream).Decode zzC10rStreamDecode
 //verif:replace $M/rlp.Split zzC10rSplit
 //verif:replace (*$M/trie.Database).InsertBlob zzC10rInsertBlob
 //verif:replace (*$M/trie.Database).Node zzC10rNode
